@@ -730,7 +730,7 @@ Proof. vm_compute. eexists. split; [reflexivity|]. split; reflexivity. Qed.
     table matches the code is validated only by the race detector (thorough
     tier, supporting evidence). *)
 
-Inductive field := FSync | FTs | FMeta | FLat | FTree.
+Inductive field := FSync | FTs | FMeta | FLat | FTree | FCount.
 Inductive mutex := MuW | MuTs | MuMeta | MuLat | MuTree.
 (** how a mutex is held: exclusively (Lock) or shared (RLock of an RWMutex) *)
 Inductive lmode := Ex | Sh.
@@ -742,7 +742,7 @@ Record access := Acs {
 
 Definition field_eqb (a b : field) : bool :=
   match a, b with
-  | FSync, FSync | FTs, FTs | FMeta, FMeta | FLat, FLat | FTree, FTree => true
+  | FSync, FSync | FTs, FTs | FMeta, FMeta | FLat, FLat | FTree, FTree | FCount, FCount => true
   | _, _ => false
   end.
 Definition mutex_eqb (a b : mutex) : bool :=
@@ -782,6 +782,10 @@ Definition accesses : list access :=
     Acs FMeta true RefreshMeta [(MuW, Ex); (MuMeta, Ex)] "Metadata.SetInt (latestTimestamp, latency stats) in updateMetaLocked";
     Acs FMeta false RefreshMeta [(MuW, Ex); (MuMeta, Ex)] "Metadata.GetBool / GetInt / GetStr in generateMetaUpdates";
     Acs FMeta true RefreshSize [(MuMeta, Ex)] "Metadata.SetInt (targetSize) in updateSize";
+    (* the leaf counters targetLeaves / Added / Deleted: maintained INCREMENTALLY next to the tree *)
+    Acs FCount true Stream [(MuW, Ex); (MuMeta, Ex)] "Metadata.AddInt(LeafCount/AddCount) in gnmiUpdate, AddInt(LeafCount/DelCount) in gnmiRemove";
+    Acs FCount true Stream [(MuW, Ex); (MuMeta, Ex)] "Metadata.Clear in Reset (counters to 0 together with the tree deletes)";
+    Acs FCount false RefreshMeta [(MuW, Ex); (MuMeta, Ex)] "Metadata.GetInt(LeafCount ...) in generateMetaUpdates";
     (* latency accumulators *)
     Acs FLat true Stream [(MuW, Ex); (MuLat, Ex)] "lat.Compute";
     Acs FLat true RefreshMeta [(MuW, Ex); (MuLat, Ex)] "lat.UpdateReset";
@@ -810,6 +814,33 @@ Definition no_unprotected_access (f : field) : bool := negb (unprotected_in acce
 (** every conflicting pair of access sites excludes each other *)
 Theorem lockset_all : forall f, no_unprotected_access f = true.
 Proof. intros []; vm_compute; reflexivity. Qed.
+
+(** Coupled state: the leaf counters summarise the tree and are updated
+    incrementally ([AddInt]) in the same critical section as the tree write.
+    A lockset per memory location is not enough for them -- a recount written
+    with [SetInt] under the metadata mutex alone is "protected" location-wise
+    and still loses a concurrent [AddInt].  What keeps counter = tree is that
+    EVERY write site of the tree and of the leaf counters runs under the
+    target's write lock, exclusively. *)
+Definition coupled (f : field) : bool := match f with FTree | FCount => true | _ => false end.
+
+Definition coupled_writes_serialised (tbl : list access) : bool :=
+  forallb (fun a => negb (coupled (ac_field a) && ac_write a) ||
+                    existsb (fun m => mutex_eqb (fst m) MuW && is_ex (snd m)) (ac_held a)) tbl.
+
+Theorem coupled_writes_all : coupled_writes_serialised accesses = true.
+Proof. vm_compute. reflexivity. Qed.
+
+(** the picture of a periodic UpdateSize that also rewrites the leaf count from
+    its walk (no write lock, metadata mutex only): every location is still
+    lock-protected, the coupling is not *)
+Definition accesses_size_recounts : list access :=
+  accesses ++ [Acs FCount true RefreshSize [(MuMeta, Ex)] "updateSize: Metadata.SetInt(LeafCount, leaves seen by the walk)"].
+
+Example recount_outside_wmu_refuted :
+  unprotected_in accesses_size_recounts FCount = false /\
+  coupled_writes_serialised accesses_size_recounts = false.
+Proof. vm_compute. split; reflexivity. Qed.
 
 (** before b865e5c the sites of [t.sync] / [t.ts] held no common lock (known
     finding 7.13, reported by the race detector on the workload of
